@@ -11,6 +11,7 @@ structure WF (r : Resp) : Prop where
   size : r.body.length < sizeUnknown
   known : (r.kind = .buffer ∨ r.kind = .iovec) → r.sizeKnown = true
   sf_kind : r.sendfile = true → r.kind = .file
+  iov_ne : ∀ e ∈ r.iov, e ≠ []
 
 /-- `response->total_size` is the content length, or still "unknown", or (after end of
     stream) the position reached -/
@@ -25,14 +26,16 @@ structure Core (r : Resp) (c : Conn) : Prop where
   iovOk : r.kind = .iovec → r.sendBody = true →
           (if c.iovSet then c.irest.flatten = r.body.drop c.rp else c.rp = 0)
   tot : TotOk r c
-  sfOk : c.sf = true → r.kind = .file
+  sfOk : c.sf = true → r.sendfile = true
   winChunk : r.chunked = true → r.kind ≠ .buffer → c.dz = 0
+  iovNe : ∀ e ∈ c.irest, e ≠ []
+  sfWin : c.sf = true → c.dz = 0
 
 theorem Core.congr {r : Resp} {c c' : Conn} (h : Core r c) (h2 : c'.rp = c.rp)
     (h3 : c'.ds = c.ds) (h4 : c'.dz = c.dz) (h5 : c'.iovSet = c.iovSet) (h6 : c'.irest = c.irest)
     (h7 : c'.tot = c.tot) (h8 : c'.sf = true → c.sf = true := by exact fun x => x) : Core r c' := by
   refine ⟨by rw [h2]; exact h.rpLe, by rw [h3, h4]; exact h.win,
-          by rw [h5, h6, h2]; exact h.iovOk, ?_, fun x => h.sfOk (h8 x), by rw [h4]; exact h.winChunk⟩
+          by rw [h5, h6, h2]; exact h.iovOk, ?_, fun x => h.sfOk (h8 x), by rw [h4]; exact h.winChunk, by rw [h6]; exact h.iovNe, fun x => by rw [h4]; exact h.sfWin (h8 x)⟩
   have := h.tot
   unfold TotOk at this ⊢
   rw [h7, h2]; exact this
